@@ -245,6 +245,22 @@ def life_src(prog, nbuf):
             elif s[0] == "useview":
                 vt = {"subview": "memref<8xi8, strided<[1], offset: 4>>", "unranked": "memref<*xi8>", "struct": DESC2}[vkinds.get(s[1], "subview")]
                 L.append(P + f'"test.op"(%v{s[1]}) : ({vt}) -> ()')
+            elif s[0] == "carry":
+                # the buffer is carried through a loop; the loop's result is the same memory
+                n[0] += 1
+                L.append(P + f"%r{s[1]} = scf.for %i{n[0]} = %c0 to %c16 step %c1 iter_args(%x{n[0]} = %b{s[1]}) -> (memref<16xi8>) {{")
+                L.append(P + f'  "test.op"(%x{n[0]}) : (memref<16xi8>) -> ()')
+                L.append(P + f"  scf.yield %x{n[0]} : memref<16xi8>")
+                L.append(P + "}")
+            elif s[0] == "pick":
+                # one of two buffers, chosen at run time
+                L.append(P + f"%r{s[1]} = scf.if %cond -> (memref<16xi8>) {{")
+                L.append(P + f"  scf.yield %b{s[1]} : memref<16xi8>")
+                L.append(P + "} else {")
+                L.append(P + f"  scf.yield %b{s[2]} : memref<16xi8>")
+                L.append(P + "}")
+            elif s[0] == "usecarry":
+                L.append(P + f'"test.op"(%r{s[1]}) : (memref<16xi8>) -> ()')
             elif s[0] == "loop":
                 n[0] += 1
                 L.append(P + f"scf.for %i{n[0]} = %c0 to %c16 step %c1 {{")
@@ -341,6 +357,11 @@ def true_lifetimes(func_op, alloc_ops):
                 if o.name in ("builtin.unrealized_conversion_cast", "memref.subview", "memref.cast", "memref.reinterpret_cast", "memref.view",
                               "memref.expand_shape", "memref.collapse_shape", "snax.layout_cast", "memref.memory_space_cast"):
                     work.extend(o.results)
+                # a loop hands its iteration arguments to its body, and what the body yields to its results
+                if o.name == "scf.for" and u.index >= 3:
+                    work.append(o.regions[0].blocks[0].args[u.index - 2])
+                if o.name == "scf.yield" and o.parent_op().name in ("scf.for", "scf.if"):
+                    work.append(o.parent_op().results[u.index])
         out.append((first, last))
     return out
 
@@ -483,6 +504,14 @@ def run(chk):
         chk.add_results("static_bump_allocation", pmap(case_static, acases, chunks=2))
     progs = gen_life_progs(rnd, 150 if quick else 1200)
     lcases = [(p, n, "minimalloc") for p, n in progs] + [(p, n, "auto") for p, n in progs[:: 3]]
+    # a buffer carried through a loop (iter_args) and used through the loop's result, while other buffers come and go
+    A_ = lambda i, al=8: ("alloc", i, al, "L1")
+    for al in (1, 64):
+        lcases += [([A_(0, al), ("use", 0), ("carry", 0), A_(1, al), ("use", 1), ("usecarry", 0)], 2, "minimalloc"),
+                   ([A_(0, al), ("carry", 0), A_(1, al), ("use", 1), A_(2, al), ("use", 2), ("loop", [("usecarry", 0)])], 3, "minimalloc"),
+                   ([A_(0, al), A_(1, al), ("carry", 1), ("use", 0), ("use", 1)], 2, "auto"),
+                   ([A_(0, al), A_(1, al), ("pick", 0, 1), A_(2, al), ("use", 2), ("usecarry", 0)], 3, "minimalloc"),
+                   ([A_(0, al), ("carry", 0), ("usecarry", 0), A_(1, al), ("use", 1)], 2, "minimalloc")]
     if only in (None, "life"):
         chk.add_results("lifetimes_handed_to_minimalloc", pmap(case_lifetime, lcases, chunks=4))
     chk.bounds = dict(size_cases=len(cases), static_cases=len(acases), lifetime_programs=len(lcases), buffers="2..3", nesting="<=2")
